@@ -591,10 +591,40 @@ def r05_5(prog, tab):
     return r
 
 
+def r05_6(prog, tab):
+    """A bit stream object is consumed through its getters only.  asn_get_few_bits() normalises the object as it goes
+    (`buffer += nboff >> 3`), so what `->buffer[0]` denotes depends on how many bits were read before.  Outside
+    asn_bit_data.c / per_support.c / per_opentype.c (the module and its PER refill hooks) no code may read *through* the
+    buffer field of an asn_bit_data_t; setting fields and testing the pointer itself is not reading the stream."""
+    r = Rule("R05.6", "outside the bit-stream module the octets of an asn_bit_data_t are read only through the bit getters", floor=2)
+    owners = ("asn_bit_data.c", "per_support.c", "per_opentype.c", "per_decoder.c", "per_encoder.c")
+    for f in sorted(prog.funcs.values(), key=lambda f: f.key):
+        if f.relfile.endswith(owners):
+            continue
+        n = 0
+        for b, line, tree in f.all_trees():
+            for nd in walk(tree):
+                if not (isinstance(nd, list) and nd and nd[0] in ("sub", "un")):
+                    continue
+                inner = nd[1] if nd[0] == "sub" else (nd[2] if nd[1] == "*" else None)
+                if inner is None:
+                    continue
+                it = strip_casts(inner)
+                if isinstance(it, list) and it and it[0] == "member" and it[2] == "buffer" and "asn_bit_data" in str(it[4]):
+                    n += 1
+                    r.bad(f, "reads %s#%d" % (tree_text(it), n), "`%s` is read directly: after asn_get_few_bits() has consumed eight or more bits the "
+                          "buffer pointer has moved, and this is no longer the octet it was meant to be" % tree_text(nd), line)
+        for b, i, e in f.events("assign"):
+            lt = strip_casts(e.get("lhs_tree"))
+            if isinstance(lt, list) and lt and lt[0] == "member" and "asn_bit_data" in str(lt[4]):
+                r.ok(f, "sets %s@%s" % (tree_text(lt), e["line"]), "field assignment (no read of the stream)", e["line"], nontrivial=False)
+    return r
+
+
 def run(ctx):
     prog = ctx.prog("S")
     tab = load_tables("c05")
-    return run_rules(prog, tab) + [r05_3(prog, tab), r05_4(prog, tab), r05_5(prog, tab)]
+    return run_rules(prog, tab) + [r05_3(prog, tab), r05_4(prog, tab), r05_5(prog, tab), r05_6(prog, tab)]
 
 
 def thorough(ctx):
